@@ -254,6 +254,17 @@ func mkHandleInstance(sc *Scenario) (*explorer.Instance, *runState) {
 					cn, conn = a[0][:i], rs.conns[a[0][:i]]
 					a = append([]string{a[0][i+1:]}, a[1:]...)
 				}
+				if a[0] == "@stall" || a[0] == "@resume" {
+					// the client stops reading (a[1] more bytes still fit on the way to it) / reads again
+					if a[0] == "@stall" {
+						room, _ := strconv.Atoi(a[1])
+						conn.Stall(room)
+					} else {
+						conn.Resume()
+					}
+					yield()
+					continue
+				}
 				if a[0] == "@eof" {
 					// the client goes away: the handler will close the connection at some later point
 					rs.ops = append(rs.ops, &opRec{Thread: ti, Conn: cn, Call: w.Steps, Ret: w.Steps, Done: true, Args: a})
@@ -493,6 +504,15 @@ func raceHandle(sc *Scenario, reps int) {
 						conn.EOF()
 						continue
 					}
+					if a[0] == "@stall" {
+						room, _ := strconv.Atoi(a[1])
+						conn.Stall(room)
+						continue
+					}
+					if a[0] == "@resume" {
+						conn.Resume()
+						continue
+					}
 					if a[0] == "BLPOP" || a[0] == "BRPOP" {
 						continue // blocking pops wait on the virtual clock: covered by the controlled pass
 					}
@@ -561,6 +581,12 @@ func handleScenarios() []*Scenario {
 	// a subscriber leaves while another one stays and messages keep being published
 	add("C19", "h:C19:subscriber-leaves-other-stays", 1, nil, []string{"c1", "c2", "c3"},
 		th(c("SUBSCRIBE", "ch"), c("@eof")), th(c("SUBSCRIBE", "ch")), th(c("PUBLISH", "ch", "m1"), c("PUBLISH", "ch", "m2"), c("PUBLISH", "ch", "m3")))
+	// a subscriber that stops reading for a while (its socket buffers hold 0 / 10 / 40 more bytes) and
+	// then reads on: publishers may wait for it, but what it finally reads is every message, intact
+	for _, room := range []string{"0", "10", "40"} {
+		add("C19", "h:C19:subscriber-stalls-"+room+"-then-reads-on", 1, nil, []string{"c1", "c2"},
+			th(c("SUBSCRIBE", "ch"), c("@stall", room), c("@resume")), th(c("PUBLISH", "ch", "m1"), c("PUBLISH", "ch", "m2")))
+	}
 	// a sequential story over five connections (one driver thread; the five handlers and parsers run
 	// when the scheduler lets them): three subscribers, the first leaves, a publish meets the dead
 	// connection, a newcomer subscribes, two more publishes - everybody still subscribed gets them
